@@ -8,7 +8,9 @@ One VirtualNet object stands in for three modules of rig.machine_control.scp_con
 
 (`install(module)` substitutes the three attributes from outside, `uninstall()` restores them.)
 
-The clock counts integer ticks held in floats (exact).  Time passes only inside select():
+The clock is a float number of seconds that is always a whole number of ticks (1 tick = `quantum` seconds, a
+power of two, so all arithmetic rig does on it is exact).  Schedules, overshoots and the recorded events count
+in ticks.  Time passes only inside select():
 
  * a datagram is receivable now                    -> select returns at once, socket ready;
  * the next datagram is due within the time-out    -> the clock jumps to its due time, socket ready;
@@ -42,6 +44,7 @@ The caller appends its own events (burst / callback / raise / return / end) to t
 
 This module decides nothing about right or wrong: it is the environment and the recorder.
 """
+import math
 
 
 class ScheduleExhausted(BaseException):
@@ -52,10 +55,13 @@ class DidNotTerminate(BaseException):
     """more select() calls than the bound allows: the call under test is spinning"""
 
 
-def tick(x):
-    """a virtual time as an integer number of ticks (mechanical; times are integers held in floats)"""
-    i = int(round(x))
-    if abs(x - i) > 1e-9:
+QUANTUM = 0.25
+
+
+def tick(x, quantum=QUANTUM):
+    """a virtual time in seconds as an integer number of ticks (mechanical)"""
+    i = int(round(x / quantum))
+    if i * quantum != x:
         raise AssertionError("virtual time %r is not a whole number of ticks" % (x,))
     return i
 
@@ -93,14 +99,16 @@ class VirtualNet(object):
     AF_INET, SOCK_DGRAM = 2, 2
     error = IOError
 
-    def __init__(self, codec, fates=(), default=None, overs=(), lifetime=True, max_selects=4000, start=0):
+    def __init__(self, codec, fates=(), default=None, overs=(), lifetime=True, max_selects=4000, start=0,
+                 quantum=QUANTUM):
         self.codec = codec              # .request(bytes) -> (seq, cmd, burst); .reply(seq, rc, cmd, burst, txid) -> bytes
         self.fates = list(fates)
         self.default = default
         self.overs = list(overs)
         self.lifetime = lifetime
         self.max_selects = max_selects
-        self.now = float(start)
+        self.quantum = quantum
+        self.now = float(start) * quantum
         self.events = []
         self.inflight = []              # [due, order, bytes, (seq, rc, cmd, burst)]
         self.order = 0
@@ -123,6 +131,12 @@ class VirtualNet(object):
     def time(self):
         return self.now
 
+    def tick(self, x):
+        return tick(x, self.quantum)
+
+    def seconds(self, ticks):
+        return ticks * self.quantum
+
     def sleep(self, s):
         self.now += s
 
@@ -130,7 +144,9 @@ class VirtualNet(object):
         self.nselect += 1
         if self.nselect > self.max_selects:
             raise DidNotTerminate()
-        timeout = 0.0 if timeout is None else timeout
+        # the time-out in whole ticks, rounded up (a select never returns early; the clock has a resolution)
+        tq = 0 if timeout is None else max(0, int(math.ceil(timeout / self.quantum)))
+        timeout = tq * self.quantum
         t0 = self.now
         due = [d[0] for d in self.inflight]
         if any(d <= self.now for d in due):
@@ -147,9 +163,9 @@ class VirtualNet(object):
                     over = 1
                 else:
                     self.idle = self.now
-            self.now = self.now + timeout + over
+            self.now = self.now + timeout + over * self.quantum
         ready = any(d[0] <= self.now for d in self.inflight)
-        self.events.append(["select", tick(timeout), tick(t0), tick(self.now), bool(ready)])
+        self.events.append(["select", tq, self.tick(t0), self.tick(self.now), bool(ready)])
         return (list(r) if ready else []), [], []
 
     # ------------------------------------------------------------------ the socket's two ends
@@ -170,10 +186,10 @@ class VirtualNet(object):
                 keep = [d for d in self.inflight if not (d[3][0] == seq and (d[3][3], d[3][2]) != (burst, cmd))]
                 self.expired += len(self.inflight) - len(keep)
                 self.inflight = keep
-        self.events.append(["send", seq, cmd, burst, tick(self.now), fate[0]])
+        self.events.append(["send", seq, cmd, burst, self.tick(self.now), fate[0]])
         for rc, delay in fate[1:]:
             self.order += 1
-            self.inflight.append([self.now + delay, self.order, self.codec.reply(seq, rc, cmd, burst, txid),
+            self.inflight.append([self.now + delay * self.quantum, self.order, self.codec.reply(seq, rc, cmd, burst, txid),
                                   (seq, rc, cmd, burst)])
         return len(data)
 
@@ -184,7 +200,7 @@ class VirtualNet(object):
         d = min(ready, key=lambda d: (d[0], d[1]))
         self.inflight.remove(d)
         seq, rc, cmd, burst = d[3]
-        self.events.append(["recv", seq, rc, tick(self.now), burst, cmd])
+        self.events.append(["recv", seq, rc, self.tick(self.now), burst, cmd])
         return d[2][:n]
 
     # ------------------------------------------------------------------ substitution from outside
